@@ -461,11 +461,26 @@ func (e *Exec) intrinsic(fn *ssa.Function, args []Value) (Value, bool) {
 	case "sort.SliceStable", "sort.Slice":
 		s := args[0].(Iface).V.(SliceV)
 		less := args[1]
+		// sort.Slice does not promise stability: besides the stable outcome the path is explored with the other
+		// extreme legal outcome, every run of equal elements reversed (one decision per path, taken at the first call)
+		reverseEqual := false
+		if name == "sort.Slice" && s.Len > 1 {
+			if e.sortMode == 0 {
+				e.sortMode = 1 + e.choose(2, "sortorder")
+			}
+			reverseEqual = e.sortMode == 2
+		}
 		// insertion sort with swaps in place, calling the interpreted less(i, j)
 		for i := 1; i < s.Len; i++ {
 			for j := i; j > 0; j-- {
-				r := e.call(less, []Value{IntV{C: uint64(j)}, IntV{C: uint64(j - 1)}})
-				if !e.truth(r) {
+				var move bool
+				if reverseEqual {
+					// move left unless the left neighbour is strictly smaller
+					move = !e.truth(e.call(less, []Value{IntV{C: uint64(j - 1)}, IntV{C: uint64(j)}}))
+				} else {
+					move = e.truth(e.call(less, []Value{IntV{C: uint64(j)}, IntV{C: uint64(j - 1)}}))
+				}
+				if !move {
 					break
 				}
 				pa, pb := mkPtr(s.Arr, []int{s.Off + j}), mkPtr(s.Arr, []int{s.Off + j - 1})
